@@ -85,6 +85,42 @@ def _star_before_group(p):
         return None
 
 
+def _syn_expand(p, cap=20000):
+    """the syntactic brace expansion of the pattern text (alternatives substituted, nothing else changed), written without
+    reference to the Go code; None if it is larger than cap"""
+    pos = 0
+
+    def seq(depth):
+        nonlocal pos
+        outs = [""]
+        while pos < len(p):
+            c = p[pos]
+            if c == "\\":
+                piece = [p[pos:pos + 2]]
+                pos += 2
+            elif c == "{":
+                pos += 1
+                piece = list(seq(depth + 1))
+                while pos < len(p) and p[pos] == ",":
+                    pos += 1
+                    piece += seq(depth + 1)
+                pos += 1  # closing brace
+            elif c in ",}" and depth > 0:
+                return outs
+            else:
+                piece = [c]
+                pos += 1
+            if len(outs) * len(piece) > cap:
+                raise OverflowError
+            outs = [a + b for a in outs for b in piece]
+        return outs
+
+    try:
+        return set(seq(0))
+    except OverflowError:
+        return None
+
+
 def classify(case):
     i = case.get("input") or {}
     o = case.get("observed") or {}
@@ -97,6 +133,11 @@ def classify(case):
         return None          # a count failure is never a known finding
     bad = [p for p in (o.get("paths") or []) if p["orig"] != any(p["var"] or [])]
     if not bad:
+        return None
+    # the recorded classes are about HOW an expansion is matched/rendered. A variant set that lacks (or adds) an alternative
+    # of the syntactic expansion of the pattern text is a different failure and is never a known finding.
+    syn = _syn_expand(i.get("pattern", ""))
+    if syn is None or syn != set(o.get("raw") or []):
         return None
     if o.get("rewritten"):
         return "render-rewrites-expansion"
@@ -115,6 +156,9 @@ SPEC = dict(
     classify=classify,
     rule=("pat cases: 8 fixed witnesses (non-normal-form patterns, 64 groups); ALL patterns `/` + <= 3 (quick) / <= 4 (thorough) "
           "tokens over {a, b, /, *, ?, {, `,`, }, **}, each against ALL clean paths (no empty segment) of length <= 4 over a b /; "
+          "5 fixed + every 10th random case from the nested-group family {{X},{X,y}} / {{X,y},{X}} / {p{X},p{X,y}} (alternatives sharing a "
+          "prefix of alternatives, either order, optional third alternative, heads /foo/ /Pictures/ ..., tails /x /** .bak) against one "
+          "path per alternative including paths only the extra alternative y matches; "
           "random patterns of 1-4 segments (literals, *, **, prefix*/*suffix, ?, nested groups up to depth 3 with empty "
           "alternatives, escapes of * ? { } , [ ] and backslash, star runs, trailing / and {,/} /** /**/ /**/* endings), each "
           "against paths instantiated from its own rendered variants (with and without trailing slash) and a random path; a "
